@@ -94,6 +94,9 @@ type Monitor struct {
 	SentAfterRestartSameHeight int
 	maxRound           int32
 	crashInfo          map[int]crashState
+	// own signed messages each validator put on the wire: validator -> height -> WAL payloads
+	sentOwn     map[int]map[int64][][]byte
+	RememberChecks int
 }
 
 type crashState struct {
@@ -105,7 +108,7 @@ type crashState struct {
 func newMonitor(c *Cluster, byz map[int]bool) *Monitor {
 	return &Monitor{c: c, byz: byz,
 		voteSeen: map[string]bool{}, firstVote: map[voteKey]VoteRec{}, firstProp: map[propKey]PropRec{},
-		finByH: map[int64][]FinRec{}, lastFinOf: map[int]int64{}, crashInfo: map[int]crashState{}}
+		finByH: map[int64][]FinRec{}, lastFinOf: map[int]int64{}, crashInfo: map[int]crashState{}, sentOwn: map[int]map[int64][][]byte{}}
 }
 
 func (m *Monitor) isByz(i int) bool { return m.byz[i] }
@@ -177,6 +180,18 @@ func (m *Monitor) onWire(from *Inc, to int, pk *test.Packet, pm *parsed, seq int
 		ok := from.Wal.IsDurable("round", payload)
 		m.mu.Lock()
 		m.DurableChecks++
+		if m.sentOwn[from.Idx] == nil {
+			m.sentOwn[from.Idx] = map[int64][][]byte{}
+		}
+		dup := false
+		for _, q := range m.sentOwn[from.Idx][pm.Height] {
+			if string(q) == string(payload) {
+				dup = true
+			}
+		}
+		if !dup {
+			m.sentOwn[from.Idx][pm.Height] = append(m.sentOwn[from.Idx][pm.Height], payload)
+		}
 		if !ok {
 			m.violate("send-before-durable."+pm.Kind, map[string]interface{}{
 				"validator": from.Idx, "incarnation": from.Gen, "kind": pm.Kind, "height": pm.Height, "round": pm.Round,
@@ -412,6 +427,46 @@ func tailStrings(s []string, n int) []string {
 	return s
 }
 
+// checkRemembered runs after a restarted incarnation finished recovery
+// (Start returned): every own vote/proposal the validator put on the wire in
+// the height it restarts in must still be in its round WAL (C02: "durably
+// remembered"), whatever torn records earlier crashes left behind.
+func (m *Monitor) checkRemembered(inc *Inc, walDir string) {
+	h := m.LastFinalizedOf(inc.Idx) + 1
+	m.mu.Lock()
+	want := append([][]byte(nil), m.sentOwn[inc.Idx][h]...)
+	crashes := append([]CrashDesc(nil), m.crashes...)
+	m.mu.Unlock()
+	if len(want) == 0 {
+		return
+	}
+	have := map[string]bool{}
+	rd, err := consensus.OpenWALForRead(walDir + "/round")
+	if err == nil {
+		for {
+			bs, err := rd.ReadBytes()
+			if err != nil {
+				break
+			}
+			have[string(bs)] = true
+		}
+		rd.Close()
+	}
+	m.mu.Lock()
+	defer m.mu.Unlock()
+	for _, w := range want {
+		m.RememberChecks++
+		if !have[string(w)] {
+			m.violate("sent-message-forgotten-after-recovery", map[string]interface{}{
+				"validator": inc.Idx, "incarnation": inc.Gen, "height": h,
+				"message": hex.EncodeToString(w), "records_readable_after_recovery": len(have), "crashes": crashes,
+				"explanation": "a vote/proposal this validator had put on the wire in the height it restarted in is no longer readable from its round WAL after recovery",
+			})
+			return
+		}
+	}
+}
+
 func (m *Monitor) onRestart(inc *Inc) {
 	m.mu.Lock()
 	m.restarts++
@@ -445,6 +500,7 @@ type Summary struct {
 	RestartFailed int
 	Equivocations int
 	DurableChecks int
+	RememberChecks int
 	SentAfterRestartSameHeight int
 	HeightsAgreedBy2 int
 	VoteOrderSig string
@@ -461,7 +517,7 @@ func (m *Monitor) Summary() *Summary {
 		Crashes: append([]CrashDesc(nil), m.crashes...), Notes: append([]string(nil), m.notes...),
 		MaxFinalized: m.maxFin, MaxRound: m.maxRound, Votes: len(m.votes), Proposals: len(m.props),
 		Restarts: m.restarts, RestartFailed: m.RestartFailed, Equivocations: m.Equivocations, DurableChecks: m.DurableChecks,
-		SentAfterRestartSameHeight: m.SentAfterRestartSameHeight, TearClasses: map[string]int{}, FramingOK: true}
+		SentAfterRestartSameHeight: m.SentAfterRestartSameHeight, RememberChecks: m.RememberChecks, TearClasses: map[string]int{}, FramingOK: true}
 	for _, v := range m.votes {
 		if v.Type == 1 {
 			s.Precommits++
